@@ -206,6 +206,14 @@ theorem takeSign_body (sg : Sign) (body : Str) (hb : ∀ c ∈ body, decChar c =
       · rename_i heq; injection heq with h1 _; exact absurd h1 hp
       · rfl
 
+theorem fracPart_dot (e : Env) (r : Str) : fracPart e ('.' :: r) = spanDigits e r := rfl
+
+theorem fracPart_other (e : Env) (s : Str) (h : ∀ r, s ≠ '.' :: r) : fracPart e s = ([], s) := by
+  unfold fracPart
+  split
+  · rename_i r; exact absurd rfl (h r)
+  · rfl
+
 theorem parseDecimalBody_lex (e : Env) (ip fp : Str) (dot : Bool) (hip : AllDigits ip) (hfp : AllDigits fp)
     (h : ip ≠ [] ∨ (dot = true ∧ fp ≠ [])) (hdot : dot = false → fp = []) :
     parseDecimalBody e (decBody ip fp dot) = some (ip.map charVal, fp.map charVal, 0) := by
@@ -220,16 +228,16 @@ theorem parseDecimalBody_lex (e : Env) (ip fp : Str) (dot : Bool) (hip : AllDigi
       · exact h
       · cases h
     have h1 : spanDigits e (ip ++ []) = (ip.map charVal, []) := spanDigits_run e ip [] hip (Or.inl rfl)
-    simp only [Bool.false_eq_true, if_false, h1]
+    simp only [Bool.false_eq_true, if_false, h1, fracPart_other e [] (by intro r; simp)]
     cases ip with
     | nil => exact absurd rfl hipne
-    | cons a r => simp
+    | cons a r => simp [expTail]
   | true =>
     have h1 : spanDigits e (ip ++ '.' :: fp) = (ip.map charVal, '.' :: fp) :=
       spanDigits_run e ip ('.' :: fp) hip (Or.inr ⟨'.', fp, rfl, hdotv⟩)
     have h2 : spanDigits e (fp ++ []) = (fp.map charVal, []) := spanDigits_run e fp [] hfp (Or.inl rfl)
     simp only [List.append_nil] at h2
-    simp only [if_true, h1, h2]
+    simp only [if_true, h1, fracPart_dot, h2]
     have hne : ¬ ((ip.map charVal).isEmpty && (fp.map charVal).isEmpty) = true := by
       rcases h with h | ⟨_, h⟩
       · cases ip with
@@ -239,7 +247,7 @@ theorem parseDecimalBody_lex (e : Env) (ip fp : Str) (dot : Bool) (hip : AllDigi
         | nil => exact absurd rfl h
         | cons a r => simp
     simp only [hne, if_false]
-    simp
+    rfl
 
 /-- `Decimal(s)` for every xs:decimal lexical form with XSD white space around it -/
 theorem decimalParse_lex (e : Env) (pre post s : Str) (neg : Bool) (c : Nat) (x : Int)
